@@ -557,16 +557,17 @@ def run(ck):
         bad = None
         if "PANIC" in common or common.startswith("HARNESS-PANIC") or common.startswith("BADCMD"):
             bad = "the real decoder panicked" if "PANIC" in common else "harness error"
-        elif not extras_ok(extras):
-            bad = "implementation-side check failed: " + extras
         elif term is not None:
             if cmd == "V":
                 ref = first_refused(term)
                 if ref:
-                    if common != "ERR " + ref:
+                    # (if the value also holds an ErrorV, any refusal is accepted: refusing ErrorV first is allowed by the property)
+                    if common != "ERR " + ref and not (has_errorv(term) and common.startswith("ERR")):
                         bad = f"a value that cannot cross the boundary ({ref}) is not refused with that error"
                 elif not common.startswith("OK "):
-                    bad = "a representable value is refused"
+                    # refusing an ErrorV is allowed by the property text (refused rather than silently altered)
+                    if not (has_errorv(term) and common.startswith("ERR")):
+                        bad = "a representable value is refused"
                 else:
                     got = common.split(" | ", 1)[1]
                     if got == show(term):
@@ -581,10 +582,11 @@ def run(ck):
                 for v, _k in term:
                     ref = ref or first_refused(v)
                 if ref:
-                    if common != "ERR " + ref:
+                    if common != "ERR " + ref and not (any(has_errorv(v) for v, _ in term) and common.startswith("ERR")):
                         bad = f"macro arguments containing {ref} are not refused with that error"
                 elif not common.startswith("OK "):
-                    bad = "representable macro arguments are refused"
+                    if not (any(has_errorv(v) for v, _ in term) and common.startswith("ERR")):
+                        bad = "representable macro arguments are refused"
                 else:
                     got = common.split(" | ", 1)[1]
                     want = "|".join(show(v) + ";" + show_key(k) for v, k in term)
@@ -632,8 +634,10 @@ def run(ck):
                         ck.known(findings["errorv-inside"], f"{line[:160]} -> decoded {got[:120]}")
                     else:
                         bad = "decoded differs from encoded (corpus/replay line)"
-            elif not any(ch + "[" in body or ch + "(" in body for ch in "lfxmk") and not body.startswith(("Intermediate", "TypeScheme")):
+            elif not any(ch + "[" in body or ch + "(" in body for ch in "lfxmke") and not body.startswith(("Intermediate", "TypeScheme")):
                 bad = "representable corpus/replay input refused"
+        if not bad and not extras_ok(extras):
+            bad = "implementation-side check failed (symbol identity / real-key equality / bincode::serialize::<FfiValue> agreement / trailing bytes): " + extras
         if bad:
             prop_fail.append((line, bad, out_i[idx]))
 
